@@ -28,6 +28,6 @@ Deliverables, all inside {wt}/_mutant/ :
   3. notes.md    - which property aspect is broken, what exactly is needed for it to manifest, and which tests you ran with what result.
 Leave the change APPLIED in the worktree when you finish.
 
-Testing: run the test files related to what you touched first, e.g. `cd {wt} && PYTHONPATH={wt} NO_ET=true /venv/bin/python -m pytest -q -p no:cacheprovider -n 4 pydra/engine/tests/test_state.py`. Then run the full suite once at the end: `cd {wt} && PYTHONPATH={wt} NO_ET=true /venv/bin/python -m pytest -q -p no:cacheprovider --timeout=900 -n 6 2>&1 | tail -40` (about 10-15 minutes; give the command a long timeout). On the UNCHANGED code exactly these 17 tests fail (missing test data, unrelated), listed in /tmp/wt/always_fail.txt; with your change the set of failures must be the same 17 and nothing else. If a test fails because of your change, pick a different change - do not touch the test. Tests drop stray files like new_file_1.txt or coverage.xml into the tree: keep them out of patch.diff.
+Testing: run ONLY the test files related to what you touched (do NOT run the full suite - the machine is shared and the full suite will be run for you afterwards), e.g. `cd {wt} && PYTHONPATH={wt} NO_ET=true timeout -s KILL 1500 /venv/bin/python -m pytest -q -p no:cacheprovider -n 3 pydra/engine/tests/test_state.py`. Pick every test file that plausibly exercises the code you changed (grep the tests for the functions you touched); all tests that pass without your change must still pass with it. A handful of tests fail on the UNCHANGED code (missing test data, unrelated), listed in /tmp/wt/always_fail.txt. If a test fails because of your change, pick a different change - do not touch the test. Tests drop stray files like new_file_1.txt or coverage.xml into the tree: keep them out of patch.diff. If `import pydra` fails because pydra/utils/_version.py is missing in the worktree, copy it: `cp /venv/lib/python3.12/site-packages/pydra/utils/_version.py {wt}/pydra/utils/`.
 
 Report back briefly: the diff, how it manifests, the test result (numbers), and confirmation that demo.py passes/fails as required.""")
